@@ -25,6 +25,7 @@ Fixpoint list_eqb (a b : bytes) : bool :=
 
 Definition str (s : string) : bytes := map N_of_ascii (list_ascii_of_string s).
 
+
 (* ------------------------------------------------------------------ read side *)
 (* one element per read() call that the kernel answers *)
 Inductive rev :=
@@ -527,7 +528,8 @@ Definition agree_recv (cs : list client_case) : bool :=
   | Some s => forallb (fun c => odir_eqb (fs s (cc_where c)) (cc_recv c)) cs
   end.
 (* model of the local recorder == local directory of the implementation *)
-Definition agree_local (c : client_case) : bool := dir_eqb (local_dir (cc_body c)) (cc_local c).
+(* (the harness's local directory is made by the harness, not by create_directory: no default.opts) *)
+Definition agree_local (c : client_case) : bool := dir_eqb (local_dir (cc_body c)) (fresh_dir ++ cc_local c).
 Definition agrees (cs : list client_case) : bool :=
   forallb agree_send cs && forallb agree_local cs && agree_recv cs.
 (* PROPERTY on implementation outputs only *)
